@@ -541,9 +541,11 @@ pub fn gen_script(r: &mut Rng, flavor: &str) -> String {
         let w = |lo: u64, hi: u64| roll >= lo && roll < hi;
         let ev: String = match flavor {
             "C20" => {
-                if silent_start && w(0, 85) {
+                if silent_start && w(0, 80) {
                     // nothing but the timer (and, rarely below, keep-alives) before any handshake
                     format!("t{}", r.pick(&[30u64, 60, 119, 120, 121, 240]))
+                } else if silent_start && w(80, 90) {
+                    format!("h{}>Ig", r.below(np as u64))
                 } else if silent_start {
                     "f:ka".into()
                 } else if w(0, 50) {
@@ -558,8 +560,11 @@ pub fn gen_script(r: &mut Rng, flavor: &str) -> String {
                     "f:ch".into()
                 } else if w(86, 92) {
                     format!("f:hv,{}>Ig", r.below(np as u64))
-                } else if w(92, 96) {
+                } else if w(92, 95) {
                     format!("f:cn,{},0,16", r.below(np as u64))
+                } else if w(95, 98) {
+                    // a piece completed on another connection: held back while the peer chokes us, whatever the timer does
+                    format!("h{}>Ig", r.below(np as u64))
                 } else {
                     "f:un>Ig".into()
                 }
@@ -781,6 +786,14 @@ pub fn gen(r: &mut Rng, n: usize, flavor: &str) -> Vec<String> {
         for _ in 0..(n / 4) {
             out.push(format!("resp {}", hex(&crate::tr19::gen_reply(r))));
         }
+    }
+    if flavor == "C11" {
+        // the whole client in closed loop (an announcement leaves only for a piece with a verified file) and the connection
+        // bookkeeping that keeps one task per peer record
+        for _ in 0..(n / 25) {
+            out.push(crate::sysloop::gen_sys(r));
+        }
+        out.extend(crate::sess::gen_cand(r, n / 25));
     }
     if flavor == "C11" {
         // the manager's side: the bitfield computed at Init for random status vectors (incl. Reserved pieces)
